@@ -1239,3 +1239,103 @@ func callsFunc(f, target *ssa.Function, depth int) bool {
 	}
 	return false
 }
+
+// ruleRequestWrites: the only fields of http.Request / url.URL that pike code
+// ever stores to are URL.Path and URL.RawQuery.
+func ruleRequestWrites(c *Ctx) {
+	n := 0
+	bad := []string{}
+	for _, f := range c.P.allFuncs {
+		for _, b := range f.Blocks {
+			for _, in := range b.Instrs {
+				st, ok := in.(*ssa.Store)
+				if !ok {
+					continue
+				}
+				fa, ok := st.Addr.(*ssa.FieldAddr)
+				if !ok {
+					continue
+				}
+				fv := fieldOf(fa.X.Type(), fa.Field)
+				if fv.Pkg() == nil {
+					continue
+				}
+				owner := ""
+				if pt, ok := fa.X.Type().Underlying().(*types.Pointer); ok {
+					if nt, ok := pt.Elem().(*types.Named); ok {
+						owner = nt.Obj().Pkg().Path() + "." + nt.Obj().Name()
+					}
+				}
+				if owner != "net/http.Request" && owner != "net/url.URL" {
+					continue
+				}
+				n++
+				if !(owner == "net/url.URL" && (fv.Name() == "Path" || fv.Name() == "RawQuery")) {
+					bad = append(bad, fmt.Sprintf("%s: %s writes %s.%s (the upstream must receive the client's method, body, host and URI unchanged apart from the configured rewrite/query)", c.P.pos(st.Pos()), funcName(f), owner, fv.Name()))
+				}
+			}
+		}
+	}
+	if n == 0 {
+		c.undecided("request-writes", "pike", "-", "no write to URL.Path/RawQuery found at all (expected the rewrite and add-query code)")
+		return
+	}
+	c.check(len(bad) == 0, "request-writes", "pike", "server/proxy.go", fmt.Sprintf("%d stores to request state in all pike code, all to URL.Path / URL.RawQuery", n), strings.Join(uniq(bad), " || "), n)
+}
+
+// ruleChainOrder: the middleware chain registers error < fresh < responder <
+// cache < proxy.
+func ruleChainOrder(c *Ctx, a *serverAnchors) {
+	fn := a.start
+	name, pos := funcName(fn), c.P.pos(fn.Pos())
+	ctor := map[string]string{
+		"github.com/vicanso/elton/middleware.NewDefaultError": "error",
+		"github.com/vicanso/elton/middleware.NewDefaultFresh": "fresh",
+		pikeMod + "/server.NewResponder":                      "responder",
+		pikeMod + "/server.NewCache":                          "cache",
+		pikeMod + "/server.NewProxy":                          "proxy",
+	}
+	n := 0
+	bad := []string{}
+	c.P.Simulate(fn, SimConfig{}, func(pr *PathResult) {
+		order := []string{}
+		for _, e := range pr.Events {
+			if e.Kind == "call" && e.Callee != nil && e.Callee.String() == "(*github.com/vicanso/elton.Elton).Use" {
+				for _, arg := range e.Args[1:] {
+					arg.walk(func(x *Term) bool {
+						if x.Op == "call" && x.Fn != nil {
+							if k, ok := ctor[x.Fn.String()]; ok {
+								order = append(order, k)
+							}
+						}
+						if x.Op == "slice" && x.Args[0].Op == "alloc" {
+							for k2, loc := range pr.State.heapLoc {
+								if loc.Op == "ia" && loc.Args[0].Key() == x.Args[0].Key() {
+									v := pr.State.heap[k2]
+									if v.Op == "call" && v.Fn != nil {
+										if k, ok := ctor[v.Fn.String()]; ok {
+											order = append(order, k)
+										}
+									}
+								}
+							}
+						}
+						return true
+					})
+				}
+			}
+		}
+		if len(order) == 0 {
+			return
+		}
+		n++
+		if strings.Join(order, "<") != "error<fresh<responder<cache<proxy" {
+			bad = append(bad, "middleware order is "+strings.Join(order, " < ")+", expected error < fresh < responder < cache < proxy (the 304 evaluation must see the filled response with the restored validators; the cache must wrap the proxy)")
+		}
+	})
+	if n == 0 {
+		c.undecided("chain-order", name, pos, "no middleware registration recognised")
+		return
+	}
+	c.check(len(bad) == 0, "chain-order", name, pos, "e.Use order: error < fresh < responder < cache < proxy", strings.Join(uniq(bad), " || "), n)
+}
